@@ -161,10 +161,10 @@ def load(spec, data, tmpdir, live_object=None):
 
 def compare_loaded(o, F, perf, merge_load, strict_tracks, tempo_sorted):
     content = [tr for tr in F["tracks"] if tr["notes"] or tr["controls"] or tr["programs"]]
-    pps = list(perf.performedparts)
     if not isinstance(perf, Performance):
         o.add("import:not-a-performance", got=type(perf).__name__)
         return
+    pps = list(perf.performedparts)
     if sorted(pp.track for pp in pps) != [tr["index"] for tr in content]:
         o.add("import:parts-do-not-match-file-tracks", part_tracks=[pp.track for pp in pps], file_content_tracks=[tr["index"] for tr in content])
         return
@@ -393,9 +393,13 @@ def _oracle_roundtrip(spec, o):
                 return o
             if b["on"][0] == a["off"][1]:
                 touching = True
-                same_point = a["on"] == a["off"] == b["on"] == b["off"]
-                if b["idx"] < a["idx"] and not same_point:
-                    reversed_ = True
+        # a note listed before a note of the same key that ends on its onset tick (all pairs, since several
+        # zero-length notes can sit on one tick)
+        for a in lst:
+            for b in lst:
+                if a is not b and b["on"][0] == a["off"][1] and b["idx"] < a["idx"]:
+                    if not (a["on"] == a["off"] == b["on"] == b["off"]):
+                        reversed_ = True
     o.cls("touching-notes", touching)
     o.cls("touching-notes-later-listed-first", reversed_)
     o.cls("zero-length-note", zero_len)
